@@ -8,7 +8,7 @@
 //!        cof0:i | cof1:i | fc0:i:<w> (from_cofactors(self, w, i)) | fc1:i:<w> (from_cofactors(w, self, i)) |
 //!        set:m | unset:m | setv:m:b | and:f:<w> | or:f:<w> | xor:f:<w>  (binary form f, second operand w) |
 //!        rand:f:<w> | ror:f:<w> | rxor:f:<w> (self is the second operand) |
-//!        next (iterator step) | reparse (from_hex(to_hex)) | conv (to the other type and back) | clone
+//!        cfrom:m (d.clone_from(self), d an existing table of m variables) | next (iterator step) | reparse (from_hex(to_hex)) | conv (to the other type and back) | clone
 
 use crate::api::{BinOp, Tab};
 use crate::engine::parse_words;
@@ -185,6 +185,7 @@ pub fn op_subject<L: Tab>(l: &L, op: &str) -> Result<L, String> {
             }
         }
         "clone" => l.clone(),
+        "cfrom" => l.t_clone_from_into(a(1)?),
         _ => return Err(format!("unknown op {}", op)),
     })
 }
@@ -229,7 +230,7 @@ pub fn op_model(t: &TT, op: &str) -> Result<TT, String> {
             TT::from_fn(n, |m| o.bit(t.get(m), u.get(m)))
         }
         "next" => t.succ().0,
-        "reparse" | "conv" | "clone" => t.clone(),
+        "reparse" | "conv" | "clone" | "cfrom" => t.clone(),
         _ => return Err(format!("unknown op {}", op)),
     })
 }
@@ -254,6 +255,11 @@ pub fn op_alphabet(n: usize, operands: &[TT], bits: &[usize], binary_forms: &[us
             }
         }
     }
+    for m in [0usize, 1, 3, 5, 6, 7, 8] {
+        // clone_from into an existing table of another size (dynamic type) / the same type
+        v.push(format!("cfrom:{}", m));
+    }
+    v.push(format!("cfrom:{}", n));
     for m in bits {
         if *m < nbits(n) {
             v.push(format!("set:{}", m));
